@@ -178,6 +178,17 @@ Proof.
   intros y Hy. apply (del_resets_In _ _ _ O4) in Hy. subst e. eapply spec_exp_clean; eauto.
 Qed.
 
+(* conversely (totality of the per-circuit step): a valid decomposition request on a circuit without an earlier
+   observable_measurements register, with observables of the circuit's width and measured qubits inside the circuit,
+   ALWAYS yields the declared circuit — never a refusal or a crash *)
+Theorem c05_build_total : forall gh gsx env qc ids ms g,
+  valid env (mdata qc) ids (map Z.of_nat ms) ->
+  existsb fst (mcregs qc) = false ->
+  length (og_general g) = mnq qc ->
+  (forall s, In s (pauli_indices_or_dummy (og_indices g)) -> s < mnq qc) ->
+  build1 gh gsx env qc ids ms g = Ok (spec_exp gh gsx env qc ids ms g).
+Proof. exact build1_total. Qed.
+
 (* spec_exp unfolded once, so that the statement above can be read without the definitions *)
 Theorem c05_spec_exp : forall gh gsx env qc ids ms g,
   let nc0 := mnc qc in
@@ -202,7 +213,7 @@ Proof. exact suffix_bits. Qed.
 
 (* ... and QPD bit k is clbit nc0 + nobs + k: the k-th marker of the spliced stream writes exactly that bit *)
 Theorem c05_qpd_bits : forall nc s,
-  flat_map ics (select (map is_marker s) (measures_numbered nc s)) = seq nc (count_markers s).
+  flat_map ics (DecomposeP.select (map is_marker s) (measures_numbered nc s)) = seq nc (count_markers s).
 Proof. exact qpd_bits. Qed.
 
 (* ------------------------------------------------------------------------------------------------
@@ -387,6 +398,7 @@ Print Assumptions c05_exact_coeff.
 Print Assumptions c05_sorted.
 Print Assumptions c05_counts_layout.
 Print Assumptions c05_shape.
+Print Assumptions c05_build_total.
 Print Assumptions c05_spec_exp.
 Print Assumptions c05_observable_bits.
 Print Assumptions c05_qpd_bits.
@@ -411,6 +423,10 @@ Definition sites_of (f : string) : nat :=
    The F2 repair (a guarded _remove_final_resets before the measurement suffix) may be present or absent: that is
    property C19's obligation, C05's correspondence accepts both. *)
 Theorem c05_facts :
+  (* the cut id is int(<text after the last "_">) in both helpers; `bases` is ordered by ascending cut id *)
+  c05_label_parse = ["int(inst.operation.label.split('_')[-1])";
+                     "int(circuit.data[basis_id[0]].operation.label.split('_')[-1])";
+                     "[bases_dict[key] for key in sorted(bases_dict.keys())]"] /\
   (* one loop over the sorted samples computes the coefficient AND builds that sample's circuits, partitions in the
      observables' order, groups innermost; the passes run afterwards over every list *)
   c05_loops = ["0:(z, (map_ids, (redundancy, weight_type))) in enumerate(sorted_samples)";
@@ -433,6 +449,6 @@ Theorem c05_facts :
   sites_of "cutting_experiments:_get_mapping_ids_by_partition" = 1 /\
   sites_of "cutting_experiments:_get_bases" = 1.
 Proof.
-  split; [reflexivity|]. split; [reflexivity|]. split; [first [left; reflexivity|right; reflexivity]|]. repeat split; reflexivity.
+  split; [reflexivity|]. split; [reflexivity|]. split; [reflexivity|]. split; [first [left; reflexivity|right; reflexivity]|]. repeat split; reflexivity.
 Qed.
 Print Assumptions c05_facts.
